@@ -49,7 +49,7 @@ def snapshot_fn(solver_obj):
 
 def run_lp(spec, opts, workdir, rng, inject=True, noise=True, second_side=None,
            time_limit=None, faults=None, clock=None, getters=('short', 'long', 'debug'),
-           text=None, argv=None, decoy_argv=None, cbc_options=None, solve_kwargs=None, cwd=None):
+           text=None, argv=None, decoy_argv=None, cbc_options=None, solve_kwargs=None, cwd=None, stale_text=None):
     """One monitored execution of the real Solver.  Never raises."""
     import sys as _sys
     from matchingproblems.solver import Solver
@@ -58,7 +58,23 @@ def run_lp(spec, opts, workdir, rng, inject=True, noise=True, second_side=None,
         second_side = True if opts['twopl'] else (rng.random() < 0.5)
     if text is None:
         text = sp.render(spec, rng=rng, second_side=second_side, noise=noise)
+    if stale_text is not None:
+        # another instance of exactly the same byte length is read from this very path first, then the path is
+        # rewritten within the same second (same size, same whole-second mtime): the file on disk is what counts
+        n = max(len(stale_text), len(text))
+        stale_text = stale_text + ' ' * (n - len(stale_text)) if not stale_text.endswith('\n') else stale_text[:-1] + ' ' * (n - len(stale_text)) + '\n'
+        text = text[:-1] + ' ' * (n - len(text)) + '\n' if text.endswith('\n') else text + ' ' * (n - len(text))
+        p0 = write_file(workdir, stale_text)
+        st0 = os.stat(p0)
+        try:
+            pre = Solver(['-f', p0, '-na', str(spec['na'])] + (['-twopl'] if opts['twopl'] else []))
+            pre.solve()
+            pre.get_results()
+        except BaseException:
+            pass
     path = write_file(workdir, text)
+    if stale_text is not None:
+        os.utime(path, (int(st0.st_atime), int(st0.st_mtime)))
     if argv is None:
         argv = ['-f', path, '-na', str(spec['na'])] + sp.opts_to_argv(opts, rng)
     ex = {'spec': spec, 'opts': opts, 'argv': argv, 'text': text, 'exc': None,
